@@ -467,6 +467,7 @@ type Engine struct {
 	replayCovers   map[string]int
 	replayHolds    map[string]int
 	replayFails    map[string]int
+	replayKnown    map[string]bool // failing vKnown assertions of a replay
 	replayDiverged bool
 	replayLog      []string
 }
